@@ -63,6 +63,23 @@ def handle (st : St) (n : Nat) (line : String) : Result := Id.run do
         let f2 := fail f.st n "C17" s!"configured log {(g "log").getD "?"} has a feeder type but is never fed after start-up: the feeder list and the witness map do not describe the same logs"
         return { st := f2.st, out := f.out ++ f2.out }
       return f
+  | "BIN" :: rest =>
+    let g := field rest
+    let phase := (g "phase").getD "?"
+    let msg := ((g "msg").bind hexOfString).map (fun b => String.fromUTF8! (ByteArray.mk b.toArray)) |>.getD ""
+    let st := st.bump s!"binary.{phase}"
+    if (g "ok").getD "0" == "1" then return { st := { st with nOK := st.nOK + 1 }, out := [s!"OK {n}"] }
+    else if phase == "restart" then
+      return fail st n "C06" s!"production binary, SIGKILL and restart on the same database file: {msg.take 160}"
+    else
+      let f := fail st n "C10" s!"production binary ({phase}): {msg.take 200}"
+      let f2 := fail f.st n "C06" s!"production binary ({phase}): {msg.take 200}"
+      return { st := f2.st, out := f.out ++ f2.out }
+  | "BINC" :: rest =>
+    let g := field rest
+    let st := st.bump "binary.served"
+    if (g "valid").getD "0" == "1" then return { st := { st with nOK := st.nOK + 1 }, out := [s!"OK {n}"] }
+    else return fail st n "C04" "production binary: the served checkpoint does not open under the log's key and exactly one valid signature by each of the two witness keys main() configures (legacy Ed25519 and cosignature/v1)"
   | "FBW" :: rest =>
     let g := field rest
     if (g "bodies").getD "-1" == "-1" then
